@@ -162,7 +162,9 @@ def simp_bool(c):
 class Engine:
     """one Engine per function under verification"""
 
-    def __init__(self, fn_key, fndef, module_imports, contract, registry, specs, concrete=False):
+    def __init__(self, fn_key, fndef, module_imports, contract, registry, specs, concrete=False, small_scope=None):
+        self.small_scope = small_scope      # K: refutation mode, bounded quantifiers are expanded over [-1, K]
+        self.scope_constraints = []
         self.fn_key, self.fndef, self.imports = fn_key, fndef, module_imports
         self.contract, self.registry, self.specs = contract, registry, specs
         self.vcs = []
@@ -175,6 +177,15 @@ class Engine:
                 self.loop_ord[id(node)] = k
         self.spec_apps_decls = {}
         self.npaths = 0
+        self.alias = {}     # view variable -> root array variable (x = y[...]), whole function, transitive
+        for node in ast.walk(fndef):
+            if isinstance(node, ast.Assign) and len(node.targets) == 1 and isinstance(node.targets[0], ast.Name) \
+                    and isinstance(node.value, ast.Subscript):
+                root = node.value.value
+                while isinstance(root, ast.Subscript):
+                    root = root.value
+                if isinstance(root, ast.Name):
+                    self.alias[node.targets[0].id] = root.id
         self.cur_src = "?"
         self.spec_depth = 0         # > 0 while evaluating contract / spec expressions (total: no safety VCs)
 
@@ -301,6 +312,22 @@ class Engine:
         raise Unsupported("unary op")
 
     def arith(self, op, a, b, st, line, guard):
+        if isinstance(op, ast.Mult) and isinstance(a, Ref) and isinstance(b, PyObj) and b.kind == "colvec" \
+                and self.ref_ndim(st, a) == 1:
+            # numpy broadcasting  row[k] * col[:, newaxis]  ->  out[i][k] = col[i] * row[k]
+            from pyvc import externals
+            externals.USED.add("numpy broadcasting: vector * column")
+            col = b.val
+            out = self.new_array(st, "bcast", "real", 2, shape=[self.ref_len(st, col), self.ref_len(st, a)])
+            i_, k_ = z3.Int("bi!%d" % next(_fresh)), z3.Int("bk!%d" % next(_fresh))
+            cell = z3.Select(z3.Select(st.heap[out.base].arr, i_), k_)
+            ci, rk = z3.Select(self.sel(st, col), i_), z3.Select(self.sel(st, a), k_)
+            if z3.is_int(ci):
+                ci = z3.ToReal(ci)
+            if z3.is_int(rk):
+                rk = z3.ToReal(rk)
+            st.pc.append(z3.ForAll([i_, k_], cell == rk * ci, patterns=[cell]))
+            return out
         if isinstance(a, PyObj) or isinstance(b, PyObj) or isinstance(a, Ref) or isinstance(b, Ref):
             raise Unsupported("arithmetic on non-scalar at line %s" % line)
         if isinstance(a, bool):
@@ -427,6 +454,10 @@ class Engine:
             raise Unsupported("subscript of non-array at line %s" % node.lineno)
         if isinstance(sl, ast.Slice):
             raise Unsupported("slice at line %s" % node.lineno)
+        if isinstance(sl, ast.Tuple) and len(sl.elts) == 2 and isinstance(sl.elts[0], ast.Slice) \
+                and sl.elts[0].lower is None and sl.elts[0].upper is None and isinstance(sl.elts[1], ast.Name) \
+                and self.imports.get(sl.elts[1].id) == "numpy.newaxis" and self.ref_ndim(st, base) == 1:
+            return PyObj("colvec", base)        # v[:, newaxis]
         idx = self.ev(sl, st, guard)
         idxs = list(idx) if isinstance(idx, tuple) else [idx]
         ref = base
@@ -515,6 +546,29 @@ class Engine:
                     st2.env[n_] = v
                 res.append(to_bool(self.ev(lam.body, st2, guard)))
             return z3.And(*res) if which == "forall" else z3.Or(*res)
+        if self.small_scope is not None:
+            K = self.small_scope
+            parts = []
+            for k in range(len(names)):
+                self.scope_constraints.append(z3.And(to_z3(bounds[2 * k]) >= -1, to_z3(bounds[2 * k + 1]) <= K + 1))
+            self.spec_depth += 1
+            try:
+                for combo in itertools.product(range(-1, K + 1), repeat=len(names)):
+                    st2 = st.fork()
+                    rngc = []
+                    for k, (n_, cval) in enumerate(zip(names, combo)):
+                        st2.env[n_] = cval
+                        rngc.append(z3.And(to_z3(bounds[2 * k]) <= cval, cval < to_z3(bounds[2 * k + 1])))
+                    rc = z3.simplify(z3.And(*rngc))
+                    if z3.is_false(rc):
+                        continue
+                    body = to_bool(self.ev(lam.body, st2, list(guard) + [rc]))
+                    parts.append(z3.Implies(rc, body) if which == "forall" else z3.And(rc, body))
+            finally:
+                self.spec_depth -= 1
+            if which == "forall":
+                return z3.And(*parts) if parts else z3.BoolVal(True)
+            return z3.Or(*parts) if parts else z3.BoolVal(False)
         bvs = [z3.Int("%s!q%d" % (n_, next(_fresh))) for n_ in names]
         st2 = st.fork()
         rng = []
@@ -709,7 +763,12 @@ class Engine:
                 while isinstance(root, ast.Subscript):
                     root = root.value
                 if isinstance(root, ast.Name):
-                    bases.add(root.id)
+                    nm = root.id
+                    for _ in range(10):
+                        bases.add(nm)
+                        if nm not in self.alias:
+                            break
+                        nm = self.alias[nm]
                 else:
                     raise Unsupported("store through a complex expression")
 
